@@ -206,7 +206,7 @@ func TestVerif_C08(t *testing.T) {
 					free[sub] = true
 				}
 			}
-			if i < 2 && q == 0 {
+			if q == 0 && rep.WantSample() {
 				g.mu.Lock()
 				rep.Sample(map[string]any{"children": nch, "filters": vk.JSON(g.filters), "child_emissions": describeEmits(g.emits), "client_received": describeRecv(mine)})
 				g.mu.Unlock()
